@@ -297,6 +297,40 @@ def run(ctx):
                                 os.unlink(os.path.join(tmpd, f))
         finally:
             tempfile.tempdir = old_tmp
+        # ---- objects still referenced when the interpreter exits (a module global, as in a script): no file survives the process
+        import subprocess
+        CHILD = (
+            "import sys, os, tempfile\n"
+            "sys.path.insert(0, %r)\n"
+            "import petl as etl\n"
+            "tempfile.tempdir = sys.argv[1]\n"
+            "kind, consumed, keep = sys.argv[2], int(sys.argv[3]), sys.argv[4]\n"
+            "if kind == 'fromdicts':\n"
+            "    v = etl.fromdicts(({'a': i} for i in range(5)), header=['a'])\n"
+            "else:\n"
+            "    v = etl.sort([['k', 'v']] + [[5 - i, i] for i in range(5)], 'k', buffersize=2, cache=(kind == 'sort-cached'), tempdir=sys.argv[1])\n"
+            "it = iter(v)\n"
+            "rows = [next(it) for _ in range(consumed)]\n"
+            "if keep == 'view': del it\n"
+            "elif keep == 'iterator': del v\n"
+            "print(len(rows))\n"
+        ) % os.environ.get('PETL_REPO', '/repo')
+        for kind in ('fromdicts', 'sort-cached', 'sort-uncached'):
+            for consumed, keep in ((2, 'both'), (6, 'both'), (3, 'view'), (3, 'iterator')) if ctx.thorough() else ((3, 'both'), (2, 'iterator')):
+                cd = tempfile.mkdtemp(prefix='petl_c18_child_', dir=tmpd)
+                try:
+                    r = subprocess.run([sys.executable, '-c', CHILD, cd, kind, str(consumed), keep], stdout=subprocess.PIPE, stderr=subprocess.PIPE, timeout=120)
+                    leftc = sorted(os.listdir(cd))
+                    okc = r.returncode == 0 and not leftc
+                except Exception as e:   # noqa
+                    okc, leftc, r = False, repr(e), None
+                ctx.case(('at-exit', kind, consumed, keep))
+                ctx.count('referenced-at-exit')
+                if not okc:
+                    ctx.spec_fail('%s|left-at-exit' % kind.split('-')[0], 'a temporary file is left behind by a process that exits while the view or an iterator is still referenced',
+                                  {'view': kind, 'rows consumed': consumed, 'still referenced': keep, 'left': repr(leftc),
+                                   'child stderr': (r.stderr.decode(errors='replace')[-300:] if r is not None else '')})
+                shutil.rmtree(cd, ignore_errors=True)
         # a fault inside the spill itself: a cell that cannot be pickled makes the chunk dump fail part-way;
         # whatever was created so far must be gone once the view and its iterators are released
         import threading
